@@ -319,6 +319,7 @@ func runC16(c *Ctx) {
 	ruleRowCopies(c, p, "C16.row-copy")
 	ruleAutoKeepsCompatible(c, p, "C16.auto-keeps")
 	ruleResetKeepsParameters(c, p, "C16.reset-keeps")
+	ruleInferNoSharedState(c, p, "C16.shared-state")
 	ruleReadFullSized(c, p, "C16.readfull-sized")
 	if rr := resolveDo(c, p); rr != nil {
 		ruleInputStream(c, p, rr, "C16")
@@ -1089,6 +1090,7 @@ func runC18(c *Ctx) {
 	ruleNoCommaSplit(c, p, "C18.comma-split")
 	ruleAutoTargetsKept(c, p, "C18.targets-kept")
 	ruleElemFromEnd(c, p, "C18.elem-last")
+	ruleNoPrepareInDecode(c, p, "C18.no-prepare")
 	ruleAdopt(c, p, "C18.adopt")
 	ruleInferTables(c, p, "C18")
 	c.R.Assumptions = append(c.R.Assumptions,
